@@ -218,18 +218,15 @@ theorem inv_step_plain (s s' : WState) (done : List (Nat × Loc)) (i : Instr) (h
   obtain ⟨_, hsorted, hbelow, hfound⟩ := hinv
   simp only [emitInstr, emitValues, hn, Bool.false_eq_true, if_false, Option.some.injEq] at h
   subst h
-  have ht : (match i.loc with | some l => setLocation s l | none => s).table = s.table := by cases i.loc <;> rfl
-  have hc : (match i.loc with | some l => setLocation s l | none => s).codeLen = s.codeLen := by cases i.loc <;> rfl
-  refine ⟨hc ▸ rfl, rfl, by simpa only [ht] using hsorted, ?_, ?_⟩
-  · intro x hx
-    simp only [ht] at hx
-    simp only [hc]
-    have := hbelow x hx
-    omega
-  · intro p hp
-    simp only [ht, hc]
-    have := hfound p hp
-    exact ⟨by omega, this.2⟩
+  cases i.loc <;>
+  · refine ⟨rfl, rfl, hsorted, ?_, ?_⟩
+    · intro x hx
+      have := hbelow x hx
+      simp only [setLocation]
+      omega
+    · intro p hp
+      have := hfound p hp
+      exact ⟨by simp only [setLocation]; omega, this.2⟩
 
 theorem inv_step_loc (s s' : WState) (done : List (Nat × Loc)) (i : Instr) (hsz : 0 < i.size) (hinv : Inv s done)
     (hn : i.needs = true) (h : emitInstr s i = some s') :
@@ -280,5 +277,73 @@ theorem inv_step_loc (s s' : WState) (done : List (Nat × Loc)) (i : Instr) (hsz
           · exact ⟨by simp only; omega, isFloor_new s.table ⟨s.codeLen, loc⟩ hbelow⟩
           · have := hfound p hp
             exact ⟨by simp only; omega, isFloor_append _ _ _ _ this.2 this.1⟩
+
+theorem offsetOf_zero (is : List Instr) : offsetOf is 0 = 0 := by simp [offsetOf]
+
+theorem offsetOf_succ (i : Instr) (r : List Instr) (k : Nat) : offsetOf (i :: r) (k + 1) = i.size + offsetOf r k := by
+  simp [offsetOf]
+
+/-- the whole sequence: the invariant holds at the end and every location-carrying instruction is in `done` -/
+theorem emitAll_found : ∀ (is : List Instr), (∀ i ∈ is, 0 < i.size) → ∀ (s s' : WState) (done : List (Nat × Loc)),
+    Inv s done → emitAll s is = some s' →
+    ∃ done', Inv s' done' ∧ (∀ p ∈ done, p ∈ done') ∧
+      ∀ (k : Nat) (hk : k < is.length), is[k].needs = true →
+        ∃ loc, is[k].loc = some loc ∧ (s.codeLen + offsetOf is k, loc) ∈ done'
+  | [], _, s, s', done, hinv, h => by
+    simp only [emitAll, Option.some.injEq] at h
+    subst h
+    exact ⟨done, hinv, fun p hp => hp, fun k hk => absurd hk (by simp)⟩
+  | i :: r, hsz, s, s', done, hinv, h => by
+    simp only [emitAll] at h
+    cases h1 : emitInstr s i with
+    | none => simp [h1] at h
+    | some s1 =>
+      simp only [h1] at h
+      have hszr : ∀ x ∈ r, 0 < x.size := fun x hx => hsz x (List.mem_cons_of_mem _ hx)
+      cases hn : i.needs with
+      | false =>
+        obtain ⟨hlen, hinv1⟩ := inv_step_plain s s1 done i hinv hn h1
+        obtain ⟨done', hinv', hsub, hall⟩ := emitAll_found r hszr s1 s' done hinv1 h
+        refine ⟨done', hinv', hsub, ?_⟩
+        intro k hk hnk
+        cases k with
+        | zero => simp only [List.getElem_cons_zero, hn] at hnk; cases hnk
+        | succ k =>
+          simp only [List.getElem_cons_succ] at hnk ⊢
+          obtain ⟨loc, hl, hm⟩ := hall k (by simpa using hk) hnk
+          refine ⟨loc, hl, ?_⟩
+          rw [offsetOf_succ, ← Nat.add_assoc, ← hlen]
+          exact hm
+      | true =>
+        obtain ⟨hlen, loc0, hl0, hinv1⟩ := inv_step_loc s s1 done i (hsz i (List.mem_cons_self)) hinv hn h1
+        obtain ⟨done', hinv', hsub, hall⟩ := emitAll_found r hszr s1 s' _ hinv1 h
+        refine ⟨done', hinv', fun p hp => hsub p (List.mem_cons_of_mem _ hp), ?_⟩
+        intro k hk hnk
+        cases k with
+        | zero =>
+          simp only [List.getElem_cons_zero]
+          refine ⟨loc0, hl0, ?_⟩
+          rw [offsetOf_zero, Nat.add_zero]
+          exact hsub _ (List.mem_cons_self)
+        | succ k =>
+          simp only [List.getElem_cons_succ] at hnk ⊢
+          obtain ⟨loc, hl, hm⟩ := hall k (by simpa using hk) hnk
+          refine ⟨loc, hl, ?_⟩
+          rw [offsetOf_succ, ← Nat.add_assoc, ← hlen]
+          exact hm
+
+/-- `Sorted` back to the executable check (for examples and the final statement) -/
+theorem sorted_sortedB : ∀ (l : List BEntry), Sorted l → sortedB l = true
+  | [], _ => rfl
+  | [_], _ => rfl
+  | a :: b :: r, hs => by
+    have h01 := hs 0 1 (by simp) (by simp) (by omega)
+    have htail : Sorted (b :: r) := by
+      intro i j hi hj hij
+      have := hs (i + 1) (j + 1) (by simpa using hi) (by simpa using hj) (by omega)
+      simpa using this
+    have ih := sorted_sortedB (b :: r) htail
+    simp only [sortedB, List.map_cons, strictInc, Bool.and_eq_true, decide_eq_true_eq] at ih ⊢
+    exact ⟨by simpa using h01, ih⟩
 
 end Dora.Trace.Bc
